@@ -196,12 +196,13 @@ impl<'a> DocSymEmitter<'a> {
             }
             Token::Segment { id, block, .. } => {
                 if let Some(b) = block {
-                    if let Ok(Some(symbol_id)) = self
+                    // Don't keep the codegen context locked while recursing, since nested segments will want to lock it as well
+                    let symbol_id = self
                         .codegen
                         .lock()
                         .unwrap()
-                        .evaluate_expression_as_string(id, false)
-                    {
+                        .evaluate_expression_as_string(id, false);
+                    if let Ok(Some(symbol_id)) = symbol_id {
                         self.emit_document_symbols(&b.inner, Some(&Identifier::new(symbol_id)))
                     } else {
                         vec![]
